@@ -57,8 +57,21 @@ def expected_calls(contexts):
                 for t, params in tests.items():
                     if t not in MODULES[m]:
                         continue
-                    out.append((sid, m, t, json.dumps(params or {}, sort_keys=True), _win(win)))
+                    out.append((sid, m, t, json.dumps(params or {}, sort_keys=True), _win(win), _region_wkt(ctx.get("region"))))
     return sorted(out, key=repr)
+
+
+def _region_wkt(region):
+    """the configured region as the WKT of its geometries (None when there is none)"""
+    if not region:
+        return None
+    from shapely.geometry import GeometryCollection, shape
+
+    if "features" in region:
+        g = GeometryCollection([shape(f["geometry"]) for f in region["features"]])
+    else:
+        g = GeometryCollection([shape(region["geometry"])])
+    return g.wkt
 
 
 def _win(w):
@@ -74,7 +87,7 @@ def actual_calls(config):
     out = []
     for c in config.calls:
         w = c.window
-        out.append((c.stream_id, c.module, c.method, json.dumps(dict(c.kwargs), sort_keys=True), _win({"starting": w.starting, "ending": w.ending})))
+        out.append((c.stream_id, c.module, c.method, json.dumps(dict(c.kwargs), sort_keys=True), _win({"starting": w.starting, "ending": w.ending}), c.region.wkt if c.region is not None else None))
     return sorted(out, key=repr)
 
 
@@ -88,7 +101,7 @@ class ConfigSpellings(Case):
     def all_props(self):
         return {"C07"}
 
-    CARRIERS = ("dict", "odict", "yaml", "json", "stringio", "path_yaml", "path_json", "xarray_attr", "xarray_vars")
+    CARRIERS = ("dict", "odict", "yaml", "json", "stringio", "path_yaml", "path_json", "xarray_attr", "xarray_vars", "dict_objects")
 
     def carry(self, obj, carrier, tmp):
         import xarray as xr
@@ -97,6 +110,29 @@ class ConfigSpellings(Case):
         plain = json.loads(json.dumps(obj))
         if carrier == "dict":
             return plain
+        if carrier == "dict_objects":
+            # an in-memory configuration whose windows are TimeWindow objects and whose regions are
+            # shapely GeometryCollections (the object spellings ContextConfig accepts)
+            from shapely.geometry import GeometryCollection, shape
+
+            from pyvc import replay
+
+            tw = replay.real_module("ioos_qc.config").tw
+
+            def conv(ctx):
+                ctx = dict(ctx)
+                if "window" in ctx:
+                    ctx["window"] = tw(**ctx["window"])
+                if ctx.get("region"):
+                    r = ctx["region"]
+                    ctx["region"] = GeometryCollection([shape(f["geometry"]) for f in r["features"]]) if "features" in r else GeometryCollection([shape(r["geometry"])])
+                return ctx
+
+            if isinstance(plain, dict) and "contexts" in plain:
+                return {"contexts": [conv(c_) for c_ in plain["contexts"]]}
+            if isinstance(plain, dict) and "streams" in plain:
+                return conv(plain)
+            return None
         if carrier == "odict":
             return OrderedDict(plain)
         if carrier in ("yaml", "stringio", "path_yaml"):
@@ -149,7 +185,7 @@ class ConfigSpellings(Case):
         if len(contexts) == 1:
             c = contexts[0]
             out.append(("single-context", c, None))
-            if "window" not in c:
+            if "window" not in c and "region" not in c:
                 out.append(("stream-mapping", c["streams"], None))
                 if len(c["streams"]) == 1:
                     (sid, mods), = c["streams"].items()
@@ -198,6 +234,15 @@ class ConfigSpellings(Case):
             cfgs.append([{"streams": sc, "window": {"starting": "2020-01-01T00:00:00", "ending": "2020-04-01T00:00:00"}}])
         more = gen_stream_cfgs(rng, 2)
         cfgs.append([{"streams": more[0], "window": {"starting": "2020-01-01T00:00:00"}}, {"streams": more[1]}])
+        # windows with one bound, written ending-first; GeoJSON regions as a Feature and as a FeatureCollection
+        poly = {"type": "Polygon", "coordinates": [[[-70.0, 40.0], [-60.0, 40.0], [-60.0, 45.0], [-70.0, 45.0], [-70.0, 40.0]]]}
+        point = {"type": "Point", "coordinates": [-65.0, 42.0]}
+        simple = {"v": {"qartod": {"gross_range_test": {"fail_span": [0, 10]}}}}
+        cfgs.append([{"streams": simple, "window": {"ending": "2020-04-01T00:00:00"}}])
+        cfgs.append([{"streams": simple, "window": OrderedDict([("ending", "2020-04-01T00:00:00"), ("starting", "2020-01-01T00:00:00")])}])
+        cfgs.append([{"streams": simple, "region": {"type": "Feature", "geometry": poly}}])
+        cfgs.append([{"streams": simple, "region": {"type": "FeatureCollection", "features": [{"type": "Feature", "geometry": poly}, {"type": "Feature", "geometry": point}]}, "window": {"starting": "2020-01-01T00:00:00", "ending": "2020-04-01T00:00:00"}}])
+        cfgs.append([{"streams": simple, "region": {"type": "Feature", "geometry": point}}, {"streams": more[1]}])
         # the shallow case: tests without parameters only
         cfgs.append([{"streams": {"v": {"argo": {"pressure_increasing_test": None}}}}])
         # every pattern of streams with / without parameters (1-3 streams, any order)
